@@ -58,9 +58,9 @@ add("tok_g0_tokch",    "tokparam", "AtomsTokCh",   5, (0, 64),                  
 add("up_f64_qm",       "uriparams", "AtomsQm",     5, (64,), ALL,      pcaps=(0, 1, 2))
 add("up_f72_qm",       "uriparams", "AtomsQm",     5, (72,), NOSTABLE, pcaps=(0, 1, 2))
 add("up_f64_p1_qm",    "uriparams", "AtomsQm",     6, (64,), ALL,      pcaps=(1,))
-add("up_f64_names",    "uriparams", "AtomsNames",  6, (64,), ALL,      pcaps=(0, 1, 2))
-add("up_f72_names",    "uriparams", "AtomsNames",  6, (72,), NOSTABLE, pcaps=(0, 1, 2))
-add("up_f64_names2",   "uriparams", "AtomsNames2", 12, (64,), ALL,     pcaps=(0, 1, 2))
+add("up_f64_names",    "uriparams", "AtomsNames",  7, (64,), ALL,      pcaps=(0, 1, 2))
+add("up_f72_names",    "uriparams", "AtomsNames",  7, (72,), NOSTABLE, pcaps=(0, 1, 2))
+add("up_f64_names2",   "uriparams", "AtomsNames2", 10, (64,), ALL,     pcaps=(0, 1, 2))
 add("up_f64_lstq",     "uriparams", "AtomsLstQ",   6, (64,), ALL,      pcaps=(0, 1, 2))
 add("up_f72_lstq",     "uriparams", "AtomsLstQ",   6, (72,), NOSTABLE, pcaps=(0, 1, 2))
 # ---- urihdrs (ParseAllURIHdrs), capacities 0, 1, 2
@@ -70,11 +70,10 @@ add("uh_f128_p1_amp",  "urihdrs", "AtomsUHdr",     6, (128,), ALL,      pcaps=(1
 add("uh_f128_lstq",    "urihdrs", "AtomsLstQA",    6, (128,), ALL,      pcaps=(0, 1, 2))
 add("uh_f136_lstq",    "urihdrs", "AtomsLstQA",    6, (136,), NOSTABLE, pcaps=(0, 1, 2))
 # ---- skipquoted (SkipQuoted as a stateless Stream kind)
-C_SQ = ["NOTE: the Go adapter (harness/kinds.go skipQuotedObj.obs) prints `{}`; TLC cannot print an empty record, the",
-        "model emits obs = {\"dummy\":0}.  Until the adapter prints {\"dummy\":0} every record of this cfg drifts on obs",
-        "only (verdict and offset agree)."]
-add("sq_a",            "skipquoted", "AtomsSkipQ",  7, (0,), ALL, comment=C_SQ)
-add("sq_b",            "skipquoted", "AtomsSkipQ2", 7, (0,), ALL, comment=C_SQ)
+C_SQ = ["The object is stateless; TLC cannot print an empty record, so the model emits obs = {\"dummy\":0} and the Go",
+        "adapter (harness/kinds.go skipQuotedObj.obs) prints the same."]
+add("sq_a",            "skipquoted", "AtomsSkipQ",  6, (0,), ALL, comment=C_SQ)
+add("sq_b",            "skipquoted", "AtomsSkipQ2", 6, (0,), ALL, comment=C_SQ)
 
 def S(t): return "{" + ", ".join(str(x) for x in t) + "}"
 here = os.path.dirname(os.path.abspath(__file__))
